@@ -102,6 +102,12 @@ def handle(job):
       o_sh = dict(o_none, mode="shard", D=1, compression_rank=[1, -1][seed % 2], block_size=16)
       s4, c8 = (4, 4), (8, 8)
       p4 = rs.standard_normal(s4).astype(np.float32); p8 = rs.standard_normal(c8).astype(np.float32)
+      # ... nor may a parameter that is EXCLUDED from preconditioning (rank below skip_preconditioning_rank_lt)
+      # but sits in front of the target shift the rows the target reads in the stacked global arrays
+      o_sk = dict(o_sh, skip_rank_lt=2, compression_rank=0)
+      pv = rs.standard_normal((6,)).astype(np.float32)
+      sk_runs = (make_runner(opt, o_sk, [s4], seed, {"p0": jnp.asarray(p4)}),
+                 make_runner(opt, o_sk, [(6,), s4], seed, {"p0": jnp.asarray(pv), "p1": jnp.asarray(p4)}))
       sh_runs = (make_runner(opt, o_sh, [s4], seed, {"p0": jnp.asarray(p4)}),
                  make_runner(opt, o_sh, [s4, c8], seed, {"p0": jnp.asarray(p4), "p1": jnp.asarray(p8)}), s4, c8)
     for t in range(T):
@@ -111,6 +117,14 @@ def handle(job):
         g4 = rs.standard_normal(s4).astype(np.float32); g8 = rs.standard_normal(c8).astype(np.float32)
         ua = upd(opt, ra, ra.step({"p0": jnp.asarray(g4)}))["p0"]
         ub = upd(opt, rb, rb.step({"p0": jnp.asarray(g4), "p1": jnp.asarray(g8)}))["p0"]
+        gv = rs.standard_normal((6,)).astype(np.float32)
+        uc = upd(opt, sk_runs[0], sk_runs[0].step({"p0": jnp.asarray(g4)}))["p0"]
+        ud = upd(opt, sk_runs[1], sk_runs[1].step({"p0": jnp.asarray(gv), "p1": jnp.asarray(g4)}))["p1"]
+        dsk = relb(uc, ud)
+        worst["companion_sharded_compressed"] = max(worst.get("companion_sharded_compressed", 0.0), dsk)
+        if not np.isfinite(dsk) or dsk > 1e-3:
+          mism.append({"clause": "sharded_parameter_depends_on_skipped_parameter_before_it", "step": t, "block": 0,
+                       "detail": dsk})
         d = relb(ua, ub)
         worst["companion_sharded_compressed"] = max(worst.get("companion_sharded_compressed", 0.0), d)
         if not np.isfinite(d) or d > 1e-3:
